@@ -9,7 +9,7 @@ body read <cl> <chunked01> <buf> <max|~> <data> <sched>
    → ok <bytes> spill=<01> req=<total requested> maxoff=<stream offset reached>
    | err <Class> req=… maxoff=…
 body wsgi <errors_map|@> <memfile> <maxbody|~> <CONTENT_LENGTH|~> <HTTP_TRANSFER_ENCODING|~> <data> <sched> <ops>
-   → status=<n> outs=<tok;…> req=… maxoff=…         (ops: B P<k> I S C, see `runOp`)
+   → status=<n> outs=<tok;…> req=… maxoff=…         (ops: B P<k> I S C, `?op` = op inside try/except, see `runOp`)
 body encode <payload:spelling:ext,…|~> <lastSpelling> <lastExt> <trailer>  → <bytes>
 body spell <upper01> <zeros> <n>                                           → <bytes>
 body raise <errors_map|@> <Class>                                          → <Class | HTTPnnn>
@@ -82,6 +82,13 @@ def runOp (q : Req) (op : String) : Option (Except Err String × Req) :=
 def runOps : Req → List String → List String → Option (Nat × List String × Req)
   | q, [], outs => some (200, outs.reverse, q)
   | q, op :: ops, outs =>
+    -- `?op` = `try: op  except Exception as e: print(class or HTTP status)` and carry on
+    if op.startsWith "?" then
+      match runOp q (op.drop 1).toString with
+      | none => none
+      | some (.error e, q') => runOps q' ops (s!"e:{e.name}" :: outs)
+      | some (.ok tok, q') => runOps q' ops (tok :: outs)
+    else
     match runOp q op with
     | none => none
     | some (.error e, q') => some (errStatus e, outs.reverse, q')
